@@ -275,6 +275,10 @@ type SchemaOrStringArray struct {
 
 // JSONLookup implements an interface to customize json pointer lookup
 func (s SchemaOrStringArray) JSONLookup(token string) (interface{}, error) {
+	if _, err := strconv.Atoi(token); err == nil {
+		r, _, err := jsonpointer.GetForToken(s.Property, token)
+		return r, err
+	}
 	r, _, err := jsonpointer.GetForToken(s.Schema, token)
 	return r, err
 }
